@@ -23,7 +23,8 @@ def _act(a):
 
 
 def _items(state_lists):
-    return [{'initial': INITIAL, 'steps': [{'act': _act(s['act']), 'st': _st(s)} for s in sl[1:]]} for sl in state_lists]
+    return [{'initial': sorted(sl[0]['comps']), 'initial_coll': sorted(sl[0]['coll']),
+             'steps': [{'act': _act(s['act']), 'st': _st(s)} for s in sl[1:]]} for sl in state_lists]
 
 
 def _replay(ctx, items, label):
@@ -57,6 +58,14 @@ def run(ctx):
                                     'RemoveLink', 'SetLinks', 'DelayEnter', 'DelayExit'])
         _replay(ctx, items, 'graph ' + gcfg)
         ctx.cov['exhaustive'] = True
+        del g
+        # link-graph shapes: everything present from the start, full menu
+        g2 = 'GEN_Links_graphs_quick.cfg' if quick else 'GEN_Links_graphs.cfg'
+        res, g = tlc.dump_graph(wd, 'MC_Links.tla', g2, timeout=3000)
+        ctx.add_tlc('E1 generation ' + g2, res, g2)
+        items = _items([[g.state(n) for n in p] for p in g.behaviours()])
+        ctx.check_ops(g2, items, ['AddLink', 'RemoveLink', 'SetLinks', 'RemoveComponent', 'RemoveData'])
+        _replay(ctx, items, 'graph ' + g2)
         del g
         n, depth = (300, 25) if quick else (6000, 40)
         res, behs = tlc.simulate(wd, 'MC_Links.tla', 'SIM_Links.cfg', num=n, depth=depth, seed=ctx.seed + 1, timeout=3000)
